@@ -15,16 +15,44 @@ partial derivatives exist at every observer off the six face planes (inside and 
 with an explicit Jacobian (`cuboid_partials`), and div B = 0, curl H = 0 (also div H = 0, curl B = 0)
 there (`cuboid_div_free`, `cuboid_H_curl_free`, `cuboid_div_curl_free`, `cuboid_curl_free_outside`,
 `cuboid_wrapper_div_curl_free`; Lemmas/CuboidDiv.lean).
+INTEGRAL forms (section `integral_laws`, Lemmas/BoxLaws.lean, Lemmas/BoxLawsCuboid.lean).  Proved, at the carrier ℝ, with
+the flux written as the six iterated interval integrals over the faces (`boxFlux6`; `boxFlux` pairs opposite faces)
+and the circulation as the four line integrals along the sides (`rectCircZ4/X4/Y4`; `rectCircZ/X/Y` pair opposite sides):
+  * generic: Gauss for a closed axis-aligned box and Green/Stokes for an axis-aligned rectangle in a coordinate plane,
+    from existence + continuity ON THE CLOSED BOX of the relevant partial derivatives and div = 0 resp. (curl)_n = 0 there
+    (`box_flux_zero_of_div_free`, `rect_circulation_zero_of_curl_free`; 1-D fundamental theorem + Fubini);
+  * Dipole: boxes / filled rectangles that do not contain the dipole position (`dipole_box_flux_zero`,
+    `dipole_rect_circulation_zero`, `dipole_rect_circulation_zero_z`);
+  * Cuboid closed form `cuboidB` / `cuboidHfield` and the wrapper row `bhjmCuboid`: boxes and rectangles inside ONE of the 27
+    cells cut out by the six face planes — strictly inside the magnet (B, not H, is solenoidal there) or in an outside
+    cell — resp. clear of the wrapper's 1e-15 shells (`cuboid_box_flux_zero`, `cuboid_rect_circulation_zero`,
+    `cuboid_wrapper_box_laws`);
+  * Sphere: boxes and rectangles strictly inside or strictly outside the ball (`sphere_box_laws_inside`, `sphere_box_laws_outside`).
+  * boxes CUTTING a boundary: the generic splitting theorem `BoxLaws.box_flux_zero_of_split_x` (field piecewise smooth on the
+    two sides of a plane `x = c`, NORMAL component continuous across it, tangential components free to jump); for the Cuboid
+    closed form only the case of a face that carries no charge, `cuboid_box_flux_crossing_tangential` (`pol.x = 0`, box
+    straddling the face `x = dim.x/2`; B jumps there by the tangential J), and the conditional
+    `cuboid_box_flux_crossing_partial` (continuity of B_n across the face as an explicit hypothesis).
+NOT proved: surfaces other than axis-aligned boxes and loops other than axis-aligned rectangles (Mathlib v4.33 has the
+divergence theorem for boxes only, no general Stokes theorem); boxes CUTTING a CHARGED face of the Cuboid (`J·n ≠ 0`: needs
+the one-sided smooth continuations of the closed form up to the face, see the FULL comment at
+`cuboid_box_flux_crossing_partial`), any cut for the wrapper row `bhjmCuboid` (its 1e-15 shells have positive
+measure), rectangles cutting a Cuboid face (circulation), boxes / rectangles cutting the Sphere surface (pointwise
+interface conditions only: `sphere_interface_model`); boxes enclosing the Dipole position; Ampère's law with a threading current (Circle, closed Polyline:
+linking-number form); every integral statement for Segment/Polyline, Circle, Cylinder, CylinderSegment, Triangle,
+Tetrahedron, TriangularMesh and collections.
 /- FULL: zero flux of B through every closed surface and circulation of H = linked current for
    every loop, all classes.  Needs C01 for every class plus Gauss/Stokes for general surfaces;
-   not shown by theorem.  The flux/circulation quadrature oracle checks boxes and loops of sizes
-   1e-2…1e2 of the source, in free space, inside magnets and cutting their boundary. -/
+   not shown by theorem beyond the cases listed above.  The flux/circulation quadrature oracle checks boxes and loops
+   of sizes 1e-2…1e2 of the source, in free space, inside magnets and cutting their boundary. -/
 -/
 import MagpyVerif.Lemmas.KernReal
 import MagpyVerif.Lemmas.DipoleCalc
 import MagpyVerif.Props.C13
 import MagpyVerif.Lemmas.SegmentDiv
 import MagpyVerif.Lemmas.CuboidDiv
+import MagpyVerif.Lemmas.BoxLaws
+import MagpyVerif.Lemmas.BoxLawsCuboid
 import MagpyVerif.Props.C01
 namespace MagpyVerif.C14
 open MagpyVerif MagpyVerif.Kern
@@ -523,5 +551,345 @@ example : DivFreeAt (bhjmCuboid .B (⟨1, 2, 3⟩ : V3 ℝ) ⟨1, -2, 3⟩) ⟨1
     (by unfold rtol; norm_num [abs_of_pos, abs_of_neg]) (by unfold rtol; norm_num [abs_of_pos, abs_of_neg])
     (by unfold rtol; norm_num [abs_of_pos, abs_of_neg])
   exact ⟨h.1, h.2.1⟩
+
+/-! ### INTEGRAL forms: flux through axis-aligned boxes, circulation around axis-aligned rectangles
+
+Lemmas/BoxLaws.lean derives, for fields `V3 ℝ → V3 ℝ`, Gauss's theorem for a closed box and
+Green/Stokes's theorem for a rectangle in a coordinate plane from the pointwise forms above: the
+one-dimensional fundamental theorem of calculus along one coordinate under the integrals over the
+others, Fubini for continuous functions, additivity (`gauss_box`, `green_rect`).  Needed on the closed
+box / rectangle: existence of the relevant partial derivatives (as in `DivFreeAt` / `CurlFreeAt`) and their
+continuity there.  `boxFlux` pairs opposite faces under one integral; `boxFlux6` is the sum of the six
+face integrals (equal when the normal components are continuous on the faces, `boxFlux6_eq_boxFlux`);
+likewise `rectCircZ/X/Y` and the four-line-integral forms `rectCircZ4/X4/Y4`. -/
+
+section integral_laws
+open MagpyVerif.BoxLaws Set
+
+/-- C14, generic Gauss theorem for boxes (restated from Lemmas/BoxLaws.lean so that it is audited here) -/
+theorem box_flux_zero_of_div_free (F : V3 ℝ → V3 ℝ) (a b : V3 ℝ) (hx : a.x ≤ b.x) (hy : a.y ≤ b.y) (hz : a.z ≤ b.z)
+    (Dx Dy Dz : V3 ℝ → ℝ)
+    (hDx : ∀ p, InBox a b p → HasDerivAt (fun t => (F ⟨t, p.y, p.z⟩).x) (Dx p) p.x)
+    (hDy : ∀ p, InBox a b p → HasDerivAt (fun t => (F ⟨p.x, t, p.z⟩).y) (Dy p) p.y)
+    (hDz : ∀ p, InBox a b p → HasDerivAt (fun t => (F ⟨p.x, p.y, t⟩).z) (Dz p) p.z)
+    (cx : ContOnBox Dx a b) (cy : ContOnBox Dy a b) (cz : ContOnBox Dz a b)
+    (hdiv : ∀ p, InBox a b p → Dx p + Dy p + Dz p = 0) :
+    (∫ y in a.y..b.y, ∫ z in a.z..b.z, ((F ⟨b.x, y, z⟩).x - (F ⟨a.x, y, z⟩).x)) +
+    (∫ x in a.x..b.x, ∫ z in a.z..b.z, ((F ⟨x, b.y, z⟩).y - (F ⟨x, a.y, z⟩).y)) +
+    (∫ x in a.x..b.x, ∫ y in a.y..b.y, ((F ⟨x, y, b.z⟩).z - (F ⟨x, y, a.z⟩).z)) = 0 :=
+  BoxLaws.box_flux_zero_of_div_free F a b hx hy hz Dx Dy Dz hDx hDy hDz cx cy cz hdiv
+
+/-- C14, generic Green/Stokes theorem for a rectangle in a plane `z = c` (planes `x = c`, `y = c`:
+`BoxLaws.rect_circulation_zero_of_curl_free_x/_y`; all three from a Jacobian field:
+`BoxLaws.rect_circulation_zero_of_hasPartials`) -/
+theorem rect_circulation_zero_of_curl_free (F : V3 ℝ → V3 ℝ) (a b : V3 ℝ) (c : ℝ) (hx : a.x ≤ b.x) (hy : a.y ≤ b.y)
+    (Dyx Dxy : ℝ → ℝ → ℝ)
+    (hyx : ∀ x ∈ Icc a.x b.x, ∀ y ∈ Icc a.y b.y, HasDerivAt (fun t => (F ⟨t, y, c⟩).y) (Dyx x y) x)
+    (hxy : ∀ x ∈ Icc a.x b.x, ∀ y ∈ Icc a.y b.y, HasDerivAt (fun t => (F ⟨x, t, c⟩).x) (Dxy x y) y)
+    (cyx : ContinuousOn (fun q : ℝ × ℝ => Dyx q.1 q.2) (Icc a.x b.x ×ˢ Icc a.y b.y))
+    (cxy : ContinuousOn (fun q : ℝ × ℝ => Dxy q.1 q.2) (Icc a.x b.x ×ˢ Icc a.y b.y))
+    (hcurl : ∀ x ∈ Icc a.x b.x, ∀ y ∈ Icc a.y b.y, Dyx x y - Dxy x y = 0) :
+    (∫ y in a.y..b.y, ((F ⟨b.x, y, c⟩).y - (F ⟨a.x, y, c⟩).y)) -
+      ∫ x in a.x..b.x, ((F ⟨x, b.y, c⟩).x - (F ⟨x, a.y, c⟩).x) = 0 :=
+  BoxLaws.rect_circulation_zero_of_curl_free F a b c hx hy Dyx Dxy hyx hxy cyx cxy hcurl
+
+/-- **C14 (Dipole, flux law in integral form).**  For every moment `m` and every closed axis-aligned box
+`[a, b]` that does not contain the dipole position (the origin), the outward flux of what `BHJM_dipole`
+returns for `field="B"` through the boundary of the box is zero — both with opposite faces paired
+(`boxFlux`) and as the sum of the six face integrals `∫∫ B·n dA` (`boxFlux6`). -/
+theorem dipole_box_flux_zero (m a b : V3 ℝ) (hx : a.x ≤ b.x) (hy : a.y ≤ b.y) (hz : a.z ≤ b.z)
+    (h0 : ¬ (0 ∈ Icc a.x b.x ∧ 0 ∈ Icc a.y b.y ∧ 0 ∈ Icc a.z b.z)) :
+    boxFlux (bhjmDipole .B m) a b = 0 ∧ boxFlux6 (bhjmDipole .B m) a b = 0 := by
+  have h0' : ¬ InBox a b ⟨0, 0, 0⟩ := h0
+  have hc := contOnBox_dipoleJac m a b mu0R h0'
+  have h : boxFlux (bhjmDipole .B m) a b = 0 := by
+    refine box_flux_zero_of_hasPartials (bhjmDipole .B m) a b hx hy hz (fun p => jacScale mu0R (dipoleJac m p))
+      (fun p hp => (dipoleH_hasPartials m p (norm_ne_zero_of_inBox h0' hp)).const_smul mu0R) hc.1.1 hc.2.1.2.1 hc.2.2.2.2
+      (fun p hp => ?_)
+    rw [jacDiv_scale, dipoleJac_div m p (norm_ne_zero_of_inBox h0' hp), mul_zero]
+  exact ⟨h, (boxFlux6_eq_boxFlux _ a b hx hy hz (faceCont_dipole m a b mu0R hx hy hz h0')).trans h⟩
+
+/-- **C14 (Dipole, Ampère's law without currents in integral form).**  Take a closed axis-aligned box
+`[a, b]` that does not contain the origin (it may be flat: `a.z = b.z`).  Then the circulation `∮ H·dl` of
+what `BHJM_dipole` returns for `field="H"` around every axis-aligned rectangle cut out of the box by a
+coordinate plane — `[a.x,b.x]×[a.y,b.y]` at height `z = c ∈ [a.z,b.z]`, and the same in planes `x = c`,
+`y = c` — is zero, in the paired form and as the sum of the four line integrals.  For a single rectangle
+in the plane `z = c` whose filled rectangle avoids the origin: `dipole_rect_circulation_zero_z`. -/
+theorem dipole_rect_circulation_zero (m a b : V3 ℝ) (hx : a.x ≤ b.x) (hy : a.y ≤ b.y) (hz : a.z ≤ b.z)
+    (h0 : ¬ (0 ∈ Icc a.x b.x ∧ 0 ∈ Icc a.y b.y ∧ 0 ∈ Icc a.z b.z)) :
+    (∀ c ∈ Icc a.z b.z, rectCircZ (bhjmDipole .H m) a b c = 0 ∧ rectCircZ4 (bhjmDipole .H m) a b c = 0) ∧
+    (∀ c ∈ Icc a.x b.x, rectCircX (bhjmDipole .H m) a b c = 0 ∧ rectCircX4 (bhjmDipole .H m) a b c = 0) ∧
+    (∀ c ∈ Icc a.y b.y, rectCircY (bhjmDipole .H m) a b c = 0 ∧ rectCircY4 (bhjmDipole .H m) a b c = 0) := by
+  have h0' : ¬ InBox a b ⟨0, 0, 0⟩ := h0
+  have hc := contOnBox_dipoleJac m a b 1 h0'
+  have hJ : ∀ p, InBox a b p → HasPartials (bhjmDipole .H m) p (jacScale 1 (dipoleJac m p)) := by
+    intro p hp
+    have h := (dipoleH_hasPartials m p (norm_ne_zero_of_inBox h0' hp)).const_smul 1
+    refine h.congr_of_eventuallyEq ?_ ?_ ?_ <;>
+      exact Filter.Eventually.of_forall fun t => by
+        show dipoleH m _ = vs 1 (dipoleH m _)
+        apply V3.ext' <;> simp [vs]
+  have h := rect_circulation_zero_of_hasPartials (bhjmDipole .H m) a b hx hy hz _ hJ hc.1.2.1 hc.1.2.2 hc.2.1.1
+    hc.2.1.2.2 hc.2.2.1 hc.2.2.2.1 (fun p _ => by rw [jacCurl_scale, dipoleJac_curl]; simp [vs])
+  have h4 := dipoleH_rectCirc4_eq m a b hx hy hz h0'
+  exact ⟨fun c hc' => ⟨h.1 c hc', (h4.1 c hc').trans (h.1 c hc')⟩,
+    fun c hc' => ⟨h.2.1 c hc', (h4.2.1 c hc').trans (h.2.1 c hc')⟩,
+    fun c hc' => ⟨h.2.2 c hc', (h4.2.2 c hc').trans (h.2.2 c hc')⟩⟩
+
+/-- one rectangle `[a.x,b.x]×[a.y,b.y]` in the plane `z = c`, the filled rectangle avoiding the origin:
+`∮ H·dl = 0`, written out as the four line integrals along its sides -/
+theorem dipole_rect_circulation_zero_z (m : V3 ℝ) (ax bx ay by' c : ℝ) (hx : ax ≤ bx) (hy : ay ≤ by')
+    (h0 : ¬ (0 ∈ Icc ax bx ∧ 0 ∈ Icc ay by' ∧ c = 0)) :
+    (∫ x in ax..bx, (bhjmDipole .H m ⟨x, ay, c⟩).x) + (∫ y in ay..by', (bhjmDipole .H m ⟨bx, y, c⟩).y) +
+      (∫ x in bx..ax, (bhjmDipole .H m ⟨x, by', c⟩).x) + ∫ y in by'..ay, (bhjmDipole .H m ⟨ax, y, c⟩).y = 0 :=
+  ((dipole_rect_circulation_zero m ⟨ax, ay, c⟩ ⟨bx, by', c⟩ hx hy le_rfl
+    (fun h => h0 ⟨h.1, h.2.1, le_antisymm h.2.2.1 h.2.2.2⟩)).1 c ⟨le_rfl, le_rfl⟩).2
+
+-- non-vacuity: the box [1,2]×[-1,1]×[-1,1] next to the dipole; a flat rectangle through z = 0 beside it;
+-- a rectangle in the plane z = 1 ABOVE the dipole whose projection contains the origin
+example (m : V3 ℝ) : boxFlux6 (bhjmDipole .B m) ⟨1, -1, -1⟩ ⟨2, 1, 1⟩ = 0 :=
+  (dipole_box_flux_zero m ⟨1, -1, -1⟩ ⟨2, 1, 1⟩ (by norm_num) (by norm_num) (by norm_num)
+    (by simp only [mem_Icc]; norm_num)).2
+example (m : V3 ℝ) : rectCircZ4 (bhjmDipole .H m) ⟨1, -1, 0⟩ ⟨2, 1, 0⟩ 0 = 0 :=
+  ((dipole_rect_circulation_zero m ⟨1, -1, 0⟩ ⟨2, 1, 0⟩ (by norm_num) (by norm_num) (by norm_num)
+    (by simp only [mem_Icc]; norm_num)).1 0 (by simp)).2
+example (m : V3 ℝ) :
+    (∫ x in (-1 : ℝ)..1, (bhjmDipole .H m ⟨x, -1, 1⟩).x) + (∫ y in (-1 : ℝ)..1, (bhjmDipole .H m ⟨1, y, 1⟩).y) +
+      (∫ x in (1 : ℝ)..(-1), (bhjmDipole .H m ⟨x, 1, 1⟩).x) + ∫ y in (1 : ℝ)..(-1), (bhjmDipole .H m ⟨-1, y, 1⟩).y = 0 :=
+  dipole_rect_circulation_zero_z m (-1) 1 (-1) 1 1 (by norm_num) (by norm_num) (by norm_num)
+
+/-! #### Cuboid: boxes and rectangles inside one of the 27 cells cut out by the six face planes -/
+
+open MagpyVerif.CuboidDiv MagpyVerif.CuboidCoulomb
+
+/-- **C14 (Cuboid closed form, flux law in integral form).**  For positive side lengths, every
+polarization and every closed axis-aligned box `[a, b]` that meets none of the six (infinitely extended)
+face planes `p_i = ±dim_i/2` — such a box lies strictly inside the magnet or in one of the 26 outside
+cells — the outward flux of the model of `magnet_cuboid_Bfield` through the boundary of the box is zero
+(paired form and sum of the six face integrals).  Inside the magnet this is the statement that `B`
+(not `H`) is solenoidal there. -/
+theorem cuboid_box_flux_zero (dim pol a b : V3 ℝ) (hdx : 0 < dim.x) (hdy : 0 < dim.y) (hdz : 0 < dim.z)
+    (hx : a.x ≤ b.x) (hy : a.y ≤ b.y) (hz : a.z ≤ b.z) (hcell : CellBox dim a b) :
+    boxFlux (cuboidB dim pol) a b = 0 ∧ boxFlux6 (cuboidB dim pol) a b = 0 := by
+  have hc := jacCont_coulombJac_box dim pol hcell 1
+  have h : boxFlux (cuboidB dim pol) a b = 0 := by
+    refine box_flux_zero_of_hasPartials (cuboidB dim pol) a b hx hy hz (fun p => jacScale 1 (coulombJac dim pol p))
+      (fun p hp => ?_) hc.c11 hc.c22 hc.c33 (fun p _ => by rw [jacDiv_scale, coulombJac_div, mul_zero])
+    have e : jacScale 1 (coulombJac dim pol p) = coulombJac dim pol p := by
+      simp only [jacScale, vs, one_mul]
+    rw [e]
+    exact cuboidB_hasPartials dim pol p hdx hdy hdz (hcell.offP hp)
+  exact ⟨h, (boxFlux6_eq_boxFlux _ a b hx hy hz
+    ((fieldCont_cuboidB_box dim pol hcell hdx hdy hdz hx hy hz).faceCont hx hy hz)).trans h⟩
+
+/-- **C14 (Cuboid closed form, Ampère's law without currents in integral form).**  `H = (B − J·1_inside)/μ₀`
+(`cuboidHfield`): for every closed box `[a, b]` (possibly flat) that meets none of the six face planes, the
+circulation of `H` around every axis-aligned rectangle cut out of the box by a coordinate plane is zero
+(paired form and sum of the four line integrals `∮ H·dl`). -/
+theorem cuboid_rect_circulation_zero (dim pol a b : V3 ℝ) (hdx : 0 < dim.x) (hdy : 0 < dim.y) (hdz : 0 < dim.z)
+    (hx : a.x ≤ b.x) (hy : a.y ≤ b.y) (hz : a.z ≤ b.z) (hcell : CellBox dim a b) :
+    (∀ c ∈ Icc a.z b.z, rectCircZ (cuboidHfield dim pol) a b c = 0 ∧ rectCircZ4 (cuboidHfield dim pol) a b c = 0) ∧
+    (∀ c ∈ Icc a.x b.x, rectCircX (cuboidHfield dim pol) a b c = 0 ∧ rectCircX4 (cuboidHfield dim pol) a b c = 0) ∧
+    (∀ c ∈ Icc a.y b.y, rectCircY (cuboidHfield dim pol) a b c = 0 ∧ rectCircY4 (cuboidHfield dim pol) a b c = 0) := by
+  have hc := jacCont_coulombJac_box dim pol hcell (1 / mu0R)
+  have h := rect_circulation_zero_of_hasPartials (cuboidHfield dim pol) a b hx hy hz
+    (fun p => jacScale (1 / mu0R) (coulombJac dim pol p))
+    (fun p hp => cuboidHfield_hasPartials dim pol p hdx hdy hdz (hcell.offP hp))
+    hc.c12 hc.c13 hc.c21 hc.c23 hc.c31 hc.c32 (fun p _ => jacCurl_scale_zero (coulombJac_curl dim pol p))
+  have h4 := (fieldCont_cuboidH_box dim pol hcell hdx hdy hdz).rectCirc4_eq hx hy hz
+  exact ⟨fun c hc' => ⟨h.1 c hc', (h4.1 c hc').trans (h.1 c hc')⟩,
+    fun c hc' => ⟨h.2.1 c hc', (h4.2.1 c hc').trans (h.2.1 c hc')⟩,
+    fun c hc' => ⟨h.2.2 c hc', (h4.2.2 c hc').trans (h.2.2 c hc')⟩⟩
+
+/-- outside the shells the wrapper `BHJM_magnet_cuboid` returns the closed form: `B = cuboidB`,
+`H = (cuboidB − J·1_inside)/μ₀` (masks, general branch, tolerance-based inside mask included) -/
+theorem bhjmCuboid_eq_closed_form (dim pol p : V3 ℝ) (hdx : 0 < dim.x) (hdy : 0 < dim.y) (hdz : 0 < dim.z)
+    (hx : rtol * (dim.x / 2) ≤ |(|p.x| - dim.x / 2)|) (hy : rtol * (dim.y / 2) ≤ |(|p.y| - dim.y / 2)|)
+    (hz : rtol * (dim.z / 2) ≤ |(|p.z| - dim.z / 2)|) :
+    bhjmCuboid .B dim pol p = cuboidB dim pol p ∧ bhjmCuboid .H dim pol p = cuboidHfield dim pol p := by
+  obtain ⟨hH, hB⟩ := C01.cuboid_wrapper_is_coulomb_integral dim pol p hdx hdy hdz hx hy hz
+  have hoff : OffP dim p := offP_of_abs hdx hdy hdz (shell_clear (half_pos hdx) hx).2.2
+    (shell_clear (half_pos hdy) hy).2.2 (shell_clear (half_pos hdz) hz).2.2
+  constructor
+  · rw [hB, cuboidB_eq_coulomb dim pol p hdx hdy hdz hoff.1.1 hoff.1.2 hoff.2.1.1 hoff.2.1.2 hoff.2.2.1 hoff.2.2.2]
+    rfl
+  · rw [hH, cuboidHfield_eq dim pol p hdx hdy hdz hoff, coulombB_eq_G dim pol p hoff]
+
+/-- **C14 (Cuboid wrapper, the `BHJM_magnet_cuboid` row, both laws in integral form).**  For positive side
+lengths, every polarization and every closed axis-aligned box `[a, b]` that stays out of the six thin open
+shells `| |p_i| − dim_i/2 | < 1e-15·dim_i/2` (`ShellBox`: six comparisons of the box's end points): the
+outward flux of what the wrapper returns for `field="B"` through the boundary of the box is zero, and the
+circulation of what it returns for `field="H"` around every axis-aligned rectangle cut out of the box
+(which may be flat) by a coordinate plane is zero. -/
+theorem cuboid_wrapper_box_laws (dim pol a b : V3 ℝ) (hdx : 0 < dim.x) (hdy : 0 < dim.y) (hdz : 0 < dim.z)
+    (hx : a.x ≤ b.x) (hy : a.y ≤ b.y) (hz : a.z ≤ b.z) (hs : ShellBox dim a b) :
+    (boxFlux (bhjmCuboid .B dim pol) a b = 0 ∧ boxFlux6 (bhjmCuboid .B dim pol) a b = 0) ∧
+    (∀ c ∈ Icc a.z b.z, rectCircZ (bhjmCuboid .H dim pol) a b c = 0 ∧ rectCircZ4 (bhjmCuboid .H dim pol) a b c = 0) ∧
+    (∀ c ∈ Icc a.x b.x, rectCircX (bhjmCuboid .H dim pol) a b c = 0 ∧ rectCircX4 (bhjmCuboid .H dim pol) a b c = 0) ∧
+    (∀ c ∈ Icc a.y b.y, rectCircY (bhjmCuboid .H dim pol) a b c = 0 ∧ rectCircY4 (bhjmCuboid .H dim pol) a b c = 0) := by
+  have hcell := hs.cellBox hdx hdy hdz
+  have eB : ∀ p, InBox a b p → bhjmCuboid .B dim pol p = cuboidB dim pol p := fun p hp =>
+    (bhjmCuboid_eq_closed_form dim pol p hdx hdy hdz (hs.clear hp).1 (hs.clear hp).2.1 (hs.clear hp).2.2).1
+  have eH : ∀ p, InBox a b p → bhjmCuboid .H dim pol p = cuboidHfield dim pol p := fun p hp =>
+    (bhjmCuboid_eq_closed_form dim pol p hdx hdy hdz (hs.clear hp).1 (hs.clear hp).2.1 (hs.clear hp).2.2).2
+  have hF := cuboid_box_flux_zero dim pol a b hdx hdy hdz hx hy hz hcell
+  have hC := cuboid_rect_circulation_zero dim pol a b hdx hdy hdz hx hy hz hcell
+  have cg := rectCirc_congr hx hy hz eH
+  refine ⟨⟨(boxFlux_congr hx hy hz eB).trans hF.1, (boxFlux6_congr hx hy hz eB).trans hF.2⟩,
+    fun c hc => ⟨((cg.1 c hc).1).trans (hC.1 c hc).1, ((cg.1 c hc).2).trans (hC.1 c hc).2⟩,
+    fun c hc => ⟨((cg.2.1 c hc).1).trans (hC.2.1 c hc).1, ((cg.2.1 c hc).2).trans (hC.2.1 c hc).2⟩,
+    fun c hc => ⟨((cg.2.2 c hc).1).trans (hC.2.2 c hc).1, ((cg.2.2 c hc).2).trans (hC.2.2 c hc).2⟩⟩
+
+-- non-vacuity (1×2×3 cuboid, skew polarization): a box strictly INSIDE the magnet, a box in the outside cell
+-- above the top face whose projection lies inside the face, a box in a corner cell, and a flat rectangle in
+-- the plane z = 0 inside the magnet
+example : boxFlux6 (cuboidB (⟨1, 2, 3⟩ : V3 ℝ) ⟨1, -2, 3⟩) ⟨-1 / 4, -1 / 2, -1⟩ ⟨1 / 4, 1 / 2, 1⟩ = 0 :=
+  (cuboid_box_flux_zero _ _ _ _ (by norm_num) (by norm_num) (by norm_num) (by norm_num) (by norm_num) (by norm_num)
+    (by simp only [CellBox, mem_Icc]; norm_num)).2
+example : boxFlux6 (cuboidB (⟨1, 2, 3⟩ : V3 ℝ) ⟨1, -2, 3⟩) ⟨-1 / 4, -1 / 2, 2⟩ ⟨1 / 4, 1 / 2, 3⟩ = 0 :=
+  (cuboid_box_flux_zero _ _ _ _ (by norm_num) (by norm_num) (by norm_num) (by norm_num) (by norm_num) (by norm_num)
+    (by simp only [CellBox, mem_Icc]; norm_num)).2
+example : boxFlux6 (bhjmCuboid .B (⟨1, 2, 3⟩ : V3 ℝ) ⟨1, -2, 3⟩) ⟨1, 2, 2⟩ ⟨2, 3, 3⟩ = 0 :=
+  (cuboid_wrapper_box_laws _ _ _ _ (by norm_num) (by norm_num) (by norm_num) (by norm_num) (by norm_num) (by norm_num)
+    (by simp only [ShellBox, ShellAxis, rtol]; norm_num)).1.2
+example : rectCircZ4 (bhjmCuboid .H (⟨1, 2, 3⟩ : V3 ℝ) ⟨1, -2, 3⟩) ⟨-1 / 4, -1 / 2, 0⟩ ⟨1 / 4, 1 / 2, 0⟩ 0 = 0 :=
+  ((cuboid_wrapper_box_laws _ _ _ _ (by norm_num) (by norm_num) (by norm_num) (by norm_num) (by norm_num) (by norm_num)
+    (by simp only [ShellBox, ShellAxis, rtol]; norm_num)).2.1 0 (by simp)).2
+
+/-! #### Sphere: boxes and rectangles strictly inside, resp. strictly outside the ball -/
+
+/-- **C14 (Sphere, both laws in integral form, boxes strictly inside the ball).**  If the closed box `[a, b]`
+(possibly flat) lies in the open ball `|p| < |d|/2`, the flux of what `BHJM_magnet_sphere` returns for
+`field="B"` through its boundary is zero and the circulation of what it returns for `field="H"` around every
+axis-aligned rectangle cut out of the box is zero (the wrapper is constant on the open ball; its inside /
+outside test included).  Checkable sufficient condition for the hypothesis: `BoxLaws.norm_lt_of_inBox`. -/
+theorem sphere_box_laws_inside (d : ℝ) (pol a b : V3 ℝ) (hx : a.x ≤ b.x) (hy : a.y ≤ b.y) (hz : a.z ≤ b.z)
+    (hin : ∀ p, InBox a b p → Kern.norm p < |d| / 2) :
+    (boxFlux (bhjmSphere .B d pol) a b = 0 ∧ boxFlux6 (bhjmSphere .B d pol) a b = 0) ∧
+    (∀ c ∈ Icc a.z b.z, rectCircZ (bhjmSphere .H d pol) a b c = 0 ∧ rectCircZ4 (bhjmSphere .H d pol) a b c = 0) ∧
+    (∀ c ∈ Icc a.x b.x, rectCircX (bhjmSphere .H d pol) a b c = 0 ∧ rectCircX4 (bhjmSphere .H d pol) a b c = 0) ∧
+    (∀ c ∈ Icc a.y b.y, rectCircY (bhjmSphere .H d pol) a b c = 0 ∧ rectCircY4 (bhjmSphere .H d pol) a b c = 0) := by
+  have ha : InBox a b a := ⟨left_mem_Icc.mpr hx, left_mem_Icc.mpr hy, left_mem_Icc.mpr hz⟩
+  have e : ∀ f, ∀ p, InBox a b p → bhjmSphere f d pol p = (fun _ => bhjmSphere f d pol a) p := fun f p hp =>
+    sphere_inside_const f d pol p a (hin p hp) (hin a ha)
+  have cg := rectCirc_congr hx hy hz (e .H)
+  refine ⟨⟨(boxFlux_congr hx hy hz (e .B)).trans (const_field_laws _ a b 0).1,
+    (boxFlux6_congr hx hy hz (e .B)).trans (const_field_laws _ a b 0).2.1⟩,
+    fun c hc => ⟨(cg.1 c hc).1.trans (const_field_laws _ a b c).2.2.1.1, (cg.1 c hc).2.trans (const_field_laws _ a b c).2.2.1.2⟩,
+    fun c hc => ⟨(cg.2.1 c hc).1.trans (const_field_laws _ a b c).2.2.2.1.1, (cg.2.1 c hc).2.trans (const_field_laws _ a b c).2.2.2.1.2⟩,
+    fun c hc => ⟨(cg.2.2 c hc).1.trans (const_field_laws _ a b c).2.2.2.2.1, (cg.2.2 c hc).2.trans (const_field_laws _ a b c).2.2.2.2.2⟩⟩
+
+/-- **C14 (Sphere, both laws in integral form, boxes strictly outside the ball).**  If the closed box
+`[a, b]` (possibly flat) lies in `|p| > |d|/2`, the flux of `B` through its boundary and the circulation of
+`H` around every axis-aligned rectangle cut out of it are zero (there the wrapper returns the dipole field of
+the moment `J·V/μ₀`; Gauss / Green for the dipole).  Checkable sufficient condition: `BoxLaws.norm_gt_of_inBox`. -/
+theorem sphere_box_laws_outside (d : ℝ) (pol a b : V3 ℝ) (hx : a.x ≤ b.x) (hy : a.y ≤ b.y) (hz : a.z ≤ b.z)
+    (hout : ∀ p, InBox a b p → |d| / 2 < Kern.norm p) :
+    (boxFlux (bhjmSphere .B d pol) a b = 0 ∧ boxFlux6 (bhjmSphere .B d pol) a b = 0) ∧
+    (∀ c ∈ Icc a.z b.z, rectCircZ (bhjmSphere .H d pol) a b c = 0 ∧ rectCircZ4 (bhjmSphere .H d pol) a b c = 0) ∧
+    (∀ c ∈ Icc a.x b.x, rectCircX (bhjmSphere .H d pol) a b c = 0 ∧ rectCircX4 (bhjmSphere .H d pol) a b c = 0) ∧
+    (∀ c ∈ Icc a.y b.y, rectCircY (bhjmSphere .H d pol) a b c = 0 ∧ rectCircY4 (bhjmSphere .H d pol) a b c = 0) := by
+  set m := vs (4 / 3 * Real.pi * (|d| / 2) ^ 3 / mu0R) pol with hm
+  have h0 : ¬ (0 ∈ Icc a.x b.x ∧ 0 ∈ Icc a.y b.y ∧ 0 ∈ Icc a.z b.z) := by
+    intro h
+    have h1 := hout ⟨0, 0, 0⟩ h
+    have h2 : Kern.norm (⟨0, 0, 0⟩ : V3 ℝ) = 0 := (norm_eq_zero_iff _).mpr rfl
+    rw [h2] at h1
+    linarith [abs_nonneg d]
+  have eB : ∀ p, InBox a b p → bhjmSphere .B d pol p = bhjmDipole .B m p := fun p hp =>
+    sphere_outside_B_eq_mu0_dipole d pol p (hout p hp)
+  have eH : ∀ p, InBox a b p → bhjmSphere .H d pol p = bhjmDipole .H m p := fun p hp =>
+    C13.sphere_outside_eq_dipole d pol p (hout p hp)
+  have hF := dipole_box_flux_zero m a b hx hy hz h0
+  have hC := dipole_rect_circulation_zero m a b hx hy hz h0
+  have cg := rectCirc_congr hx hy hz eH
+  refine ⟨⟨(boxFlux_congr hx hy hz eB).trans hF.1, (boxFlux6_congr hx hy hz eB).trans hF.2⟩,
+    fun c hc => ⟨((cg.1 c hc).1).trans (hC.1 c hc).1, ((cg.1 c hc).2).trans (hC.1 c hc).2⟩,
+    fun c hc => ⟨((cg.2.1 c hc).1).trans (hC.2.1 c hc).1, ((cg.2.1 c hc).2).trans (hC.2.1 c hc).2⟩,
+    fun c hc => ⟨((cg.2.2 c hc).1).trans (hC.2.2 c hc).1, ((cg.2.2 c hc).2).trans (hC.2.2 c hc).2⟩⟩
+
+-- non-vacuity: diameter 2; the box [-1/2,1/2]³ is inside the unit ball (3/4 < 1), the box [2,3]×[-1,1]² outside
+example (pol : V3 ℝ) : boxFlux6 (bhjmSphere .B 2 pol) ⟨-1 / 2, -1 / 2, -1 / 2⟩ ⟨1 / 2, 1 / 2, 1 / 2⟩ = 0 :=
+  (sphere_box_laws_inside 2 pol _ _ (by norm_num) (by norm_num) (by norm_num) fun p hp =>
+    norm_lt_of_inBox (by norm_num) (by norm_num [abs_of_pos, abs_of_neg]) hp).1.2
+example (pol : V3 ℝ) : boxFlux6 (bhjmSphere .B 2 pol) ⟨2, -1, -1⟩ ⟨3, 1, 1⟩ = 0 :=
+  (sphere_box_laws_outside 2 pol _ _ (by norm_num) (by norm_num) (by norm_num) fun p hp =>
+    norm_gt_of_inBox (Or.inl (Or.inl (by norm_num))) hp).1.2
+
+/-- non-vacuity of `dipole_box_flux_zero`: the law is not `0 + 0 + … = 0`.  For the moment `(1,0,0)` and the box
+`[1,2]×[-1,1]×[-1,1]` the flux through the single face `x = 2` is strictly positive
+(`B_x(2,y,z) = μ₀(12 − r²)/(4π r⁵)` with `4 ≤ r² ≤ 6`), so the other five faces carry the opposite flux. -/
+theorem dipole_face_flux_pos :
+    0 < ∫ y in (-1 : ℝ)..1, ∫ z in (-1 : ℝ)..1, (bhjmDipole .B (⟨1, 0, 0⟩ : V3 ℝ) ⟨2, y, z⟩).x := by
+  have h0 : ¬ InBox (⟨1, -1, -1⟩ : V3 ℝ) ⟨2, 1, 1⟩ ⟨0, 0, 0⟩ := by
+    simp only [InBox, mem_Icc]; norm_num
+  have hc := (faceCont_dipole (⟨1, 0, 0⟩ : V3 ℝ) ⟨1, -1, -1⟩ ⟨2, 1, 1⟩ mu0R (by norm_num) (by norm_num) (by norm_num) h0).xb
+  refine iter2_pos (by norm_num) (by norm_num) (fun y z => (bhjmDipole .B (⟨1, 0, 0⟩ : V3 ℝ) ⟨2, y, z⟩).x) hc ?_
+  intro y hy z hz
+  have hr : 0 < Kern.norm (⟨2, y, z⟩ : V3 ℝ) := norm_pos_of_ne (by simp)
+  have hsq := norm_sq (⟨2, y, z⟩ : V3 ℝ)
+  have hy2 : y * y ≤ 1 := by nlinarith [hy.1, hy.2]
+  have hz2 : z * z ≤ 1 := by nlinarith [hz.1, hz.2]
+  show 0 < mu0R * (dipoleH (⟨1, 0, 0⟩ : V3 ℝ) ⟨2, y, z⟩).x
+  apply mul_pos mu0R_pos
+  simp only [dipoleH, vs, vd, n, ofNat_real, pi_real, V3.dot, V3.sub_x, Nat.cast_ofNat]
+  simp only at hsq
+  generalize Kern.norm (⟨2, y, z⟩ : V3 ℝ) = r at *
+  have h12 : r * r < 12 := by nlinarith
+  apply div_pos (div_pos _ (by norm_num)) Real.pi_pos
+  have e : 3 * (1 * 2 + 0 * y + 0 * z) * 2 / (r * r * r * r * r) - 1 / (r * r * r) =
+      (12 - r * r) / (r * r * r * r * r) := by
+    field_simp
+    ring
+  rw [e]
+  exact div_pos (by linarith) (by positivity)
+
+/-! #### boxes CUTTING a face of the Cuboid: partial -/
+
+/- FULL: for every closed axis-aligned box that crosses the face plane `x = dim.x/2` (and misses the other five
+   planes) `boxFlux6 (cuboidB dim pol) a b = 0`, because the jump of the normal component of the surface-charge
+   integral across the face is exactly `−J·n` and is cancelled by the `+J` of the interior term.
+   Missing: the one-sided smooth continuations `Fm`, `Fp` of `cuboidB` up to and including the plane (the corner term
+   `arctan(uv/(wr))` continued through `w = 0` as `±(π/2)·sign(uv) − arctan(wr/(uv))`, the derivative lemmas of
+   Lemmas/CuboidDiv.lean re-proved under `u, v ≠ 0` instead of `w ≠ 0`), and with them the continuity of `B_n`
+   across the face (`hn` below).  Everything else — splitting the six face integrals at the plane, Gauss on the two
+   closed halves, the irrelevance of the values ON the plane — is `BoxLaws.box_flux_zero_of_split_x`. -/
+/-- C14 (Cuboid, box cutting the face plane `x = c`), PARTIAL: conditional on one-sided continuations `Fm`, `Fp` of
+the closed form that are continuous on the closed half boxes, have zero flux through them, and whose NORMAL
+components agree on the cut (`hn`: continuity of `B_n` across the face — an explicit hypothesis here). -/
+theorem cuboid_box_flux_crossing_partial (dim pol a b : V3 ℝ) (c : ℝ) (Fm Fp : V3 ℝ → V3 ℝ) (hac : a.x < c) (hcb : c < b.x)
+    (hy : a.y ≤ b.y) (hz : a.z ≤ b.z)
+    (cm : FieldContOnBox Fm a ⟨c, b.y, b.z⟩) (cp : FieldContOnBox Fp ⟨c, a.y, a.z⟩ b)
+    (hm0 : boxFlux6 Fm a ⟨c, b.y, b.z⟩ = 0) (hp0 : boxFlux6 Fp ⟨c, a.y, a.z⟩ b = 0)
+    (em : ∀ p, InBox a b p → p.x < c → cuboidB dim pol p = Fm p)
+    (ep : ∀ p, InBox a b p → c < p.x → cuboidB dim pol p = Fp p)
+    (hn : ∀ y ∈ Icc a.y b.y, ∀ z ∈ Icc a.z b.z, (Fm ⟨c, y, z⟩).x = (Fp ⟨c, y, z⟩).x) :
+    boxFlux6 (cuboidB dim pol) a b = 0 :=
+  box_flux_zero_of_split_x (cuboidB dim pol) Fm Fp a b c hac hcb hy hz cm cp hm0 hp0 em ep hn
+
+/-- **C14 (Cuboid closed form, box CUTTING a face, polarization parallel to that face).**  `pol.x = 0`; the closed
+box `[a, b]` crosses the face plane `x = +dim.x/2` (`a.x < dim.x/2 < b.x`), does not reach the opposite one, and its
+`y`- and `z`-ranges miss the planes `y = ±dim.y/2`, `z = ±dim.z/2` (so its projection lies inside the face, or
+beside it).  Then the flux of `cuboidB` through the six faces of the box is zero — although, when the projection
+lies inside the face, `B` itself jumps across the face by the tangential vector `J`.  Instance of
+`BoxLaws.box_flux_zero_of_split_x` with `Fm = restG + J`, `Fp = restG` (`restG`: the surface-charge field of the
+four charged faces, smooth across the uncharged one); it also shows that the hypotheses of
+`cuboid_box_flux_crossing_partial` are satisfiable.  The case `pol.x ≠ 0` (charged face, the normal component of
+the surface-charge integral jumps by `−J·n`) is the FULL statement above and is not proved. -/
+theorem cuboid_box_flux_crossing_tangential (dim pol a b : V3 ℝ) (hdx : 0 < dim.x) (hdy : 0 < dim.y) (hdz : 0 < dim.z)
+    (hpx : pol.x = 0) (hac : a.x < dim.x / 2) (hcb : dim.x / 2 < b.x) (hlo : -(dim.x / 2) < a.x)
+    (hy : a.y ≤ b.y) (hz : a.z ≤ b.z)
+    (hcy : dim.y / 2 ∉ Icc a.y b.y ∧ -(dim.y / 2) ∉ Icc a.y b.y)
+    (hcz : dim.z / 2 ∉ Icc a.z b.z ∧ -(dim.z / 2) ∉ Icc a.z b.z) :
+    boxFlux6 (cuboidB dim pol) a b = 0 :=
+  cuboidB_box_flux_crossing_tangential dim pol a b hdx hdy hdz hpx hac hcb hlo hy hz ⟨hcy, hcz⟩
+
+-- non-vacuity: 2×2×2 cube polarized along (0,1,2); the box [1/2,3/2]×[-1/2,1/2]² straddles the face x = 1 with its
+-- projection inside the face; B jumps across the face there by J = (0,1,2)
+example : boxFlux6 (cuboidB (⟨2, 2, 2⟩ : V3 ℝ) ⟨0, 1, 2⟩) ⟨1 / 2, -1 / 2, -1 / 2⟩ ⟨3 / 2, 1 / 2, 1 / 2⟩ = 0 :=
+  cuboid_box_flux_crossing_tangential _ _ _ _ (by norm_num) (by norm_num) (by norm_num) rfl (by norm_num) (by norm_num)
+    (by norm_num) (by norm_num) (by norm_num) (by simp only [mem_Icc]; norm_num) (by simp only [mem_Icc]; norm_num)
+
+end integral_laws
 
 end MagpyVerif.C14
